@@ -24,7 +24,7 @@ from harness import universe as U
 PROP = "C01"
 LEAN_PROP = "PyaModel.Props.C01"
 NAMESPACE = "Pya.C01"
-LEAN_TARGETS = ["PyaModel.Core.MiniPy", "PyaModel.Spec.MiniSem", "PyaModel.Spec.D01", "PyaModel.Core.Sexp", "PyaModel.Spec.Mem",
+LEAN_TARGETS = ["PyaModel.Core.MiniPy", "PyaModel.Spec.MiniSem", "PyaModel.Spec.D01", "PyaModel.Core.Composite", "PyaModel.Core.Sexp", "PyaModel.Spec.Mem",
                 "PyaModel.Generated.ClassTable"]
 ANCHORS = [
     ("pyanalyze/name_check_visitor.py", "NameCheckVisitor.visit"),
@@ -2373,11 +2373,11 @@ D_PREDICATES = {
                                                             for b in _subblocks(s) for x in b) and _has_a(s),
     "C02:promote": lambda s: _tflag(s) == 1,
     "unionMemberConstraint": lambda s: _tflag(s) == 2,
-    "strContainment": lambda s: _tflag(s) == 3,
 }
 # (matchExhaustiveLeavesScope and tupleConcat were repaired in /repo — 232b32d, b494820 —: no longer classes, their
 # witnesses stay in corpus/C01.jsonl as regression cases that must pass)
-CLASS_ORDER = ["C02:promote", "unionMemberConstraint", "strContainment", "loopCarriedLiteral", "C09:loopElse", "C09:secondVisitSeed", "C09:loopBreak",
+# (strContainment was repaired in /repo — e71c8d1 —: no longer a class)
+CLASS_ORDER = ["C02:promote", "unionMemberConstraint", "loopCarriedLiteral", "C09:loopElse", "C09:secondVisitSeed", "C09:loopBreak",
                "C09:jumpThroughFinally", "C09:loopJumpInSuppressing", "C09:nestedLoopJump", "loopConstraintCycle"]
 
 
@@ -3002,8 +3002,6 @@ def conforms_to(cls, f):
         return bool(ts) and all(lit_only(t) for t in ts)
     if cls == "C02:promote":
         return isinstance(val, int) or isinstance(val, float)  # an int / bool (float for complex) dropped by the negative branch
-    if cls == "strContainment":
-        return isinstance(val, str)
     if cls == "loopConstraintCycle":
         return bool(f.get("never"))
     if cls == "setDisplayOrder":
@@ -3526,9 +3524,72 @@ def malformed(ctx):
             ctx.disagree("malformed", {"line": line}, "expected %s" % ("bad-op" if line in bad else "a result"), r)
 
 
+def composite_bounds():
+    """(lo, hiOff) of `for i in range(lo, len(varname.attributes) - hiOff)` in FunctionScope._add_composite, read off the
+    AST of the live source; raises if the loop no longer has that shape."""
+    path = os.path.join(pya.REPO, "pyanalyze", "stacked_scopes.py")
+    tree = ast.parse(open(path).read())
+    fn = None
+    for cls in tree.body:
+        if isinstance(cls, ast.ClassDef) and cls.name == "FunctionScope":
+            fn = next((n for n in cls.body if isinstance(n, ast.FunctionDef) and n.name == "_add_composite"), None)
+    if fn is None:
+        raise ValueError("FunctionScope._add_composite not found")
+    loops = [n for n in ast.walk(fn) if isinstance(n, ast.For)]
+    if len(loops) != 1:
+        raise ValueError("_add_composite: expected exactly one for loop")
+    it = loops[0].iter
+    if not (isinstance(it, ast.Call) and isinstance(it.func, ast.Name) and it.func.id == "range" and len(it.args) == 2
+            and isinstance(it.args[0], ast.Constant) and isinstance(it.args[0].value, int)):
+        raise ValueError("_add_composite: loop is not range(<int>, <expr>)")
+    lo, hi = it.args[0].value, it.args[1]
+
+    def is_len(e):
+        return isinstance(e, ast.Call) and isinstance(e.func, ast.Name) and e.func.id == "len" and ast.unparse(e.args[0]) == "varname.attributes"
+
+    if is_len(hi):
+        off = 0
+    elif isinstance(hi, ast.BinOp) and isinstance(hi.op, ast.Sub) and is_len(hi.left) and isinstance(hi.right, ast.Constant) \
+            and isinstance(hi.right.value, int) and hi.right.value >= 0:
+        off = hi.right.value
+    else:
+        raise ValueError("_add_composite: upper bound is not len(varname.attributes) [- k]: " + ast.unparse(hi))
+    return lo, off
+
+
 def translate(ctx):
     tb, changed = V.regenerate_class_table()
     ctx.extra["class_table_regenerated"] = {"changed_on_disk": changed, "classes": len(tb["names"])}
+    lo, off = composite_bounds()
+    text = ("/-! GENERATED by harness/props/c01.py (translate) from the live /repo tree on every run: the bounds of the loop\n"
+            "`for i in range(lo, len(varname.attributes) - hiOff)` in `FunctionScope._add_composite` (pyanalyze/stacked_scopes.py).\n"
+            "Do not edit. -/\nnamespace Pya.C01\n\ndef addCompositeLo : Nat := %d\ndef addCompositeHiOff : Nat := %d\n\nend Pya.C01\n" % (lo, off))
+    ch = lean.write_if_changed(os.path.join(lean.LEAN, "PyaModel", "Generated", "CompositeBounds.lean"), text)
+    ctx.extra["composite_bounds"] = {"lo": lo, "hiOff": off, "changed_on_disk": ch}
+
+
+def composite_reg_stream(ctx):
+    """Correspondence: the prefixes under which the real FunctionScope._add_composite records a composite vs
+    `recordedUnder` of Core/Composite.lean (with the regenerated bounds)."""
+    from pyanalyze.stacked_scopes import CompositeVariable, FunctionScope, Scope, ScopeType
+    from pyanalyze.value import KnownValue
+    rng = ctx.rng
+    keys = ["a", "b", KnownValue(0), KnownValue("k"), "c"]
+    paths = [[i] for i in range(3)] + [[i, j] for i in range(3) for j in range(3)]
+    paths += [[rng.randrange(5) for _ in range(rng.choice([3, 3, 4, 5]))] for _ in range(ctx.n(40, 400))]
+    outs = run_driver(["creg " + ".".join(map(str, pth)) for pth in paths])
+    for pth, out in zip(paths, outs):
+        fs = FunctionScope(Scope(ScopeType.module_scope, {}, None))
+        cv = CompositeVariable("x", tuple(keys[i] for i in pth))
+        fs._add_composite(cv)
+        impl = []
+        for k, vs in fs.name_to_composites.items():
+            if cv in vs:
+                impl.append("-" if k == "x" else ".".join(str(keys.index(a)) for a in k.attributes))
+        ctx.corr("composite-reg")
+        ctx.count(1, composite_reg=1)
+        if sorted(impl) != sorted(x for x in out.split(";") if x):
+            ctx.disagree("composite-reg", {"composite": "x" + "".join("[%r]" % (keys[i],) for i in pth)}, sorted(impl), out)
 
 
 def run(ctx):
@@ -3536,6 +3597,7 @@ def run(ctx):
     warnings.simplefilter("ignore")
     mini_stream(ctx, mini_progs(ctx))
     malformed(ctx)
+    composite_reg_stream(ctx)
     exec_stream(ctx)
 
 
